@@ -9,8 +9,11 @@ namespace Echse.Ical
 /-- the part of the buffer not looked at yet -/
 def rest (p : Parser) : List Byte := p.buf.drop p.bix
 
+/-- the automaton keeps the unfolded line in full; the parser has it in the stash as long as it fits, and
+the mark `skip` with an empty stash from then on -/
 structure Rel (p : Parser) (A : Abs) : Prop where
-  stash : p.stash = A.cur
+  fits : A.cur.length < stashSize → p.skip = false ∧ p.stash = A.cur
+  over : stashSize ≤ A.cur.length → p.skip = true ∧ p.stash = []
   comp : p.comp = A.comp
   log : p.log = A.log
   mark : p.eolp = true ↔ A.sc.pend = true
@@ -24,15 +27,19 @@ def bookProc (q0 : Parser) (acc : List Instr) : Parser × List Instr :=
     if verbOf (doProc q0).1.comp.meth (doProc q0).1.comp.cur == "X" then ((doProc q0).1, acc)
     else ((doProc q0).1, acc ++ [mkInstr (doProc q0).1 (doProc q0).1.comp.cur])
 
-/-- one round of `flat` -/
-def flatNext (p : Parser) (acc : List Instr) : Option (Parser × List Instr) :=
-  match (round p).2 with
-  | none => some ((round p).1, acc)
+/-- what the loops around `_ical_pull` do with the outcome of one round -/
+def book (x : Parser × Option PullRes) (acc : List Instr) : Option (Parser × List Instr) :=
+  match x.2 with
+  | none => some (x.1, acc)
   | some .need => none
-  | some .eop => some (resetMeth (round p).1, acc)
+  | some .eop => some (resetMeth x.1, acc)
   | some (.ve ls) =>
-    if verbOf (round p).1.comp.meth ls == "X" then some ((round p).1, acc)
-    else some ((round p).1, acc ++ [mkInstr (round p).1 ls])
+    if verbOf x.1.comp.meth ls == "X" then some (x.1, acc) else some (x.1, acc ++ [mkInstr x.1 ls])
+
+/-- one round of `flat` -/
+def flatNext (p : Parser) (acc : List Instr) : Option (Parser × List Instr) := book (round p) acc
+
+theorem flatNext_eq (p : Parser) (acc : List Instr) : flatNext p acc = book (round p) acc := rfl
 
 theorem flat_next (f : Nat) (p : Parser) (acc : List Instr) :
     flat (f+1) p acc =
@@ -40,7 +47,7 @@ theorem flat_next (f : Nat) (p : Parser) (acc : List Instr) :
       | none => ((round p).1, acc)
       | some x => flat f x.1 x.2 := by
   rw [flat_succ]
-  unfold flatNext
+  unfold flatNext book
   cases h : (round p).2 with
   | none => rfl
   | some r =>
@@ -51,11 +58,9 @@ theorem flat_next (f : Nat) (p : Parser) (acc : List Instr) :
       dsimp only
       split <;> rfl
 
-theorem flatNext_proc (p q0 : Parser) (acc : List Instr) (h : round p = procRes (doProc q0)) :
-    flatNext p acc = some (bookProc q0 acc) := by
-  unfold flatNext bookProc
-  rw [h]
-  unfold procRes
+theorem book_proc (q0 : Parser) (acc : List Instr) :
+    book (procRes (doProc q0)) acc = some (bookProc q0 acc) := by
+  unfold book bookProc procRes
   cases hr : (doProc q0).2 with
   | none => rfl
   | eop => rfl
@@ -63,8 +68,20 @@ theorem flatNext_proc (p q0 : Parser) (acc : List Instr) (h : round p = procRes 
     dsimp only
     split <;> rfl
 
-theorem flushA_of_ne (A : Abs) (h : A.cur ≠ []) : flushA A = { (procA A) with sc := {} } := by
-  unfold flushA; rw [if_neg h]
+theorem flushA_of_ne (A : Abs) (h : A.cur ≠ []) (hfit : A.cur.length < stashSize) :
+    flushA A = { (procA A) with sc := {} } := by
+  unfold flushA; rw [if_neg h, if_neg (by omega)]
+
+theorem flushA_of_nil (A : Abs) (h : A.cur = []) : flushA A = { A with sc := {} } := by
+  unfold flushA; rw [if_pos h]
+
+theorem over_ne_nil (A : Abs) (h : stashSize ≤ A.cur.length) : A.cur ≠ [] := by
+  intro hx; rw [hx] at h; exact absurd h (Nat.not_succ_le_zero 1023)
+
+/-- a line that does not fit is passed over -/
+theorem flushA_of_over (A : Abs) (h : stashSize ≤ A.cur.length) :
+    flushA A = { A with sc := {}, cur := [] } := by
+  unfold flushA; rw [if_neg (over_ne_nil A h), if_pos h]
 
 theorem doProc_snd (q0 : Parser) : (doProc q0).2 = (procLine q0.comp q0.stash).2 := rfl
 theorem doProc_comp (q0 : Parser) : (doProc q0).1.comp = (procLine q0.comp q0.stash).1 := rfl
@@ -73,22 +90,23 @@ theorem doProc_log (q0 : Parser) :
 
 /-- `_ical_proc` plus bookkeeping is `procA` -/
 theorem bookProc_spec (q0 : Parser) (A : Abs) (hs : q0.stash = A.cur) (hc : q0.comp = A.comp)
-    (hl : q0.log = A.log) (hne : A.cur ≠ []) (he : q0.eolp = false) :
+    (hl : q0.log = A.log) (hne : A.cur ≠ []) (hfit : A.cur.length < stashSize) (hk : q0.skip = false)
+    (he : q0.eolp = false) :
     Rel (bookProc q0 A.ins).1 (flushA A) ∧ (bookProc q0 A.ins).2 = (flushA A).ins ∧
       (bookProc q0 A.ins).1.buf = q0.buf ∧ (bookProc q0 A.ins).1.bix = q0.bix := by
   have hmk : q0.eolp = true ↔ ({} : Sc).pend = true := by rw [he]
-  rw [flushA_of_ne A hne]
+  rw [flushA_of_ne A hne hfit]
   unfold bookProc procA
   rw [doProc_snd, doProc_comp, hs, hc]
   cases hr : (procLine A.comp A.cur).2 with
   | none =>
     simp only [hr]
-    refine ⟨⟨rfl, ?_, ?_, hmk⟩, trivial, rfl, rfl⟩
+    refine ⟨⟨fun _ => ⟨hk, rfl⟩, fun h => absurd h (Nat.not_succ_le_zero 1023), ?_, ?_, hmk⟩, trivial, rfl, rfl⟩
     · rw [doProc_comp, hs, hc]
     · rw [doProc_log, hs, hl]
   | eop =>
     simp only [hr]
-    refine ⟨⟨rfl, ?_, ?_, hmk⟩, trivial, rfl, rfl⟩
+    refine ⟨⟨fun _ => ⟨hk, rfl⟩, fun h => absurd h (Nat.not_succ_le_zero 1023), ?_, ?_, hmk⟩, trivial, rfl, rfl⟩
     · show ({ (doProc q0).1.comp with meth := none } : Comp) = _
       rw [doProc_comp, hs, hc]
     · show (doProc q0).1.log = _
@@ -96,12 +114,43 @@ theorem bookProc_spec (q0 : Parser) (A : Abs) (hs : q0.stash = A.cur) (hc : q0.c
   | ve =>
     simp only [hr]
     split
-    · refine ⟨⟨rfl, ?_, ?_, hmk⟩, rfl, rfl, rfl⟩
+    · refine ⟨⟨fun _ => ⟨hk, rfl⟩, fun h => absurd h (Nat.not_succ_le_zero 1023), ?_, ?_, hmk⟩, rfl, rfl, rfl⟩
       · rw [doProc_comp, hs, hc]
       · rw [doProc_log, hs, hl]
-    · refine ⟨⟨rfl, ?_, ?_, hmk⟩, ?_, rfl, rfl⟩
+    · refine ⟨⟨fun _ => ⟨hk, rfl⟩, fun h => absurd h (Nat.not_succ_le_zero 1023), ?_, ?_, hmk⟩, ?_, rfl, rfl⟩
       · rw [doProc_comp, hs, hc]
       · rw [doProc_log, hs, hl]
       · unfold mkInstr; rw [doProc_comp, hs, hc]
+
+/-- the label `proc:` in terms of the automaton: the pending line is flushed -/
+theorem procStep_spec (q : Parser) (A : Abs)
+    (hf : A.cur.length < stashSize → q.skip = false ∧ q.stash = A.cur)
+    (ho : stashSize ≤ A.cur.length → q.skip = true)
+    (hc : q.comp = A.comp) (hl : q.log = A.log) (he : q.eolp = false) :
+    ∃ q', book (procStep q) A.ins = some (q', (flushA A).ins) ∧ Rel q' (flushA A) ∧
+      q'.buf = q.buf ∧ q'.bix = q.bix := by
+  have hmk : q.eolp = true ↔ ({} : Sc).pend = true := by rw [he]
+  by_cases hfit : A.cur.length < stashSize
+  · obtain ⟨hk, hs⟩ := hf hfit
+    unfold procStep
+    rw [if_neg (by rw [hk]; simp)]
+    by_cases hne : q.stash.length ≠ 0
+    · rw [if_pos hne, book_proc]
+      have hcur : A.cur ≠ [] := by
+        rw [← hs]; intro hx; rw [hx] at hne; exact hne rfl
+      have hb := bookProc_spec q A hs hc hl hcur hfit hk he
+      exact ⟨(bookProc q A.ins).1, by rw [← hb.2.1], hb.1, hb.2.2.1, hb.2.2.2⟩
+    · rw [if_neg hne]
+      have hcur : A.cur = [] := by
+        rw [← hs]; exact List.eq_nil_of_length_eq_zero (by omega)
+      rw [flushA_of_nil A hcur]
+      exact ⟨q, rfl, ⟨fun _ => ⟨hk, hs⟩, fun h => absurd h (by show ¬ stashSize ≤ A.cur.length; omega),
+        hc, hl, hmk⟩, rfl, rfl⟩
+  · have hover : stashSize ≤ A.cur.length := by omega
+    have hk := ho hover
+    unfold procStep
+    rw [if_pos hk, flushA_of_over A hover]
+    exact ⟨_, rfl, ⟨fun _ => ⟨rfl, rfl⟩, fun h => absurd h (Nat.not_succ_le_zero 1023), hc, hl, hmk⟩,
+      rfl, rfl⟩
 
 end Echse.Ical
